@@ -196,7 +196,18 @@ def check(ctx, rep):
                     recv = norm(inner_rets[0].node.value)
                 elif val is not None:
                     recv = norm(val)
-                ok = any(ev.kind == "test" and ev.extra is True and norm(ev.node) == f"{recv}.isrequestforme()" for ev in p.events)
+                # the handler may have been handed on under another name (chosen = htry; a helper returning its candidate)
+                aliases = {recv}
+                for ev in reversed(p.events):
+                    if ev.kind == "assign" and isinstance(ev.node, ast.Assign) and isinstance(ev.target, str) and ev.target in aliases:
+                        if isinstance(ev.node.value, ast.Name):
+                            aliases.add(ev.node.value.id)
+                        elif isinstance(ev.node.value, ast.Call):
+                            aliases.update(norm(r.node.value) for r in inner_rets if isinstance(r.node.value, ast.Name))
+                    elif ev.kind == "return" and isinstance(ev.node.value, ast.Name) and (isinstance(val, ast.Call) or recv in aliases) \
+                            and isinstance(val, ast.Call) and not (isinstance(val.func, ast.Attribute) and val.func.attr == "gethandler"):
+                        aliases.add(ev.node.value.id)
+                ok = any(ev.kind == "test" and ev.extra is True and norm(ev.node) in {f"{a}.isrequestforme()" for a in aliases} for ev in p.events)
                 if not ok:
                     problems.append(f"`{norm(ret.node)}` is reachable without {recv}.isrequestforme() having accepted")
             elif p.kind == "fall":
